@@ -115,6 +115,8 @@ pub struct Ctl {
     pub faults: Vec<FaultRule>,
     fault_counts: [u32; 3],
     pub faults_hit: u32,
+    /// EIO / ENOSPC injections (short writes and EINTR are benign and not counted here).
+    pub hard_faults_hit: u32,
 }
 
 impl Ctl {
@@ -139,6 +141,9 @@ impl Ctl {
         for r in &self.faults {
             if r.target == target && n >= r.nth && (n - r.nth) < r.count {
                 self.faults_hit += 1;
+                if matches!(r.kind, FaultKind::Eio | FaultKind::Enospc) {
+                    self.hard_faults_hit += 1;
+                }
                 return Some(r.kind);
             }
         }
@@ -228,6 +233,7 @@ pub fn begin(dir: &str) {
         faults: vec![],
         fault_counts: [0; 3],
         faults_hit: 0,
+        hard_faults_hit: 0,
     }));
     ACTIVE.store(true, Ordering::SeqCst);
 }
